@@ -45,6 +45,33 @@ VTx(ev) ==
       Ok(IsVal(ev[14]) /\ PosSet(ev[14][2]) = IntronPos(ex), "introns"),
       Ok(IsVal(ev[15]) /\ PosSet(ev[15][2]) = MinStart(ex)..(MaxEnd(ex) - 1), "span") >>)
 
+(* ["txpos", exons, cds|EMPTY, G, s2t, t2s, s2c, c2s, t2c, c2t, aa, introns, span] : the chromosome-level conversions
+   of a transcript that was built on a sequence CHUNK (emitted by the C07 check): they are the conversions of the
+   whole-chromosome transcript, whatever the chunk cuts off.  (UTR accessors answer in chunk coordinates and are not
+   part of this event.) *)
+VTxPos(ev) ==
+  LET ex == ev[2] cds == ev[3] n == LenLoc(ex) coding == ~IsEmptyLoc(cds) IN
+  IF ~coding THEN
+    FirstBad(<<
+      Ok(MapOK(ev[5], -1, LAMBDA p : p \in PosSet(ex), LAMBDA p : Min(Par2RelSet(ex, p))), "chr-to-transcript"),
+      Ok(MapOK(ev[6], -1, LAMBDA i : 0 <= i /\ i < n, LAMBDA i : Rel2Par(ex, i)), "transcript-to-chr"),
+      Ok(\A k \in DOMAIN ev[7] : Rejected(ev[7][k]), "noncoding-rejects-cds-calls"),
+      Ok(\A k \in DOMAIN ev[9] : Rejected(ev[9][k]), "noncoding-rejects-cds-calls"),
+      Ok(IsVal(ev[12]) /\ PosSet(ev[12][2]) = IntronPos(ex), "introns"),
+      Ok(IsVal(ev[13]) /\ PosSet(ev[13][2]) = MinStart(ex)..(MaxEnd(ex) - 1), "span") >>)
+  ELSE
+    LET m == LenLoc(cds) ca == CdsStartOnTx(ex, cds) cb == ca + m IN
+    FirstBad(<<
+      Ok(MapOK(ev[5], -1, LAMBDA p : p \in PosSet(ex), LAMBDA p : Min(Par2RelSet(ex, p))), "chr-to-transcript"),
+      Ok(MapOK(ev[6], -1, LAMBDA i : 0 <= i /\ i < n, LAMBDA i : Rel2Par(ex, i)), "transcript-to-chr"),
+      Ok(MapOK(ev[7], -1, LAMBDA p : p \in PosSet(cds), LAMBDA p : Min(Par2RelSet(cds, p))), "chr-to-cds"),
+      Ok(MapOK(ev[8], -1, LAMBDA i : 0 <= i /\ i < m, LAMBDA i : Rel2Par(cds, i)), "cds-to-chr"),
+      Ok(MapOK(ev[9], -1, LAMBDA t : ca <= t /\ t < cb, LAMBDA t : t - ca), "transcript-to-cds"),
+      Ok(MapOK(ev[10], -1, LAMBDA c : 0 <= c /\ c < m, LAMBDA c : c + ca), "cds-to-transcript"),
+      Ok(MapOK(ev[11], -1, LAMBDA p : p \in PosSet(cds), LAMBDA p : Min(Par2RelSet(cds, p)) \div 3), "amino-acid-index"),
+      Ok(IsVal(ev[12]) /\ PosSet(ev[12][2]) = IntronPos(ex), "introns"),
+      Ok(IsVal(ev[13]) /\ PosSet(ev[13][2]) = MinStart(ex)..(MaxEnd(ex) - 1), "span") >>)
+
 (* ["txiv", exons, cds, entries = <<kind, a, b, strand, outcome>>...] : interval forms *)
 VTxIv(ev) ==
   LET ex == ev[2] cds == ev[3] IN
@@ -78,7 +105,7 @@ VM1(ev) ==
   ELSE (IF 0 <= p /\ p < LenLoc(sys) THEN Ok(IsVal(o) /\ o[2] = Rel2Par(sys, p), "relative-to-chr")
         ELSE Ok(Rejected(o), "relative-to-chr:rejects"))
 
-Verdict(ev) == CASE ev[1] = "m1" -> VM1(ev) [] ev[1] = "tx" -> VTx(ev) [] ev[1] = "txiv" -> VTxIv(ev) [] OTHER -> "unknown-op"
+Verdict(ev) == CASE ev[1] = "txpos" -> VTxPos(ev) [] ev[1] = "m1" -> VM1(ev) [] ev[1] = "tx" -> VTx(ev) [] ev[1] = "txiv" -> VTxIv(ev) [] OTHER -> "unknown-op"
 Bad == {i \in DOMAIN Trace : Verdict(Trace[i]) # "ok"}
 ASSUME \A i \in Bad : PrintT(<<"BAD", i, Verdict(Trace[i])>>)
 ASSUME PrintT(<<"DONE", Len(Trace), Cardinality(Bad)>>)
